@@ -37,11 +37,12 @@ type Lazy struct {
 	S      Str
 	T      *Term
 	Map    *MapObj
+	Birth  int // allocation serial of the nondet call: materialised objects pre-exist
 }
 
 func (x *Exec) newLazy(sp *Spec, depth int, inList bool) *Lazy {
 	x.lazyN++
-	return &Lazy{ID: x.lazyN, Spec: sp, Depth: depth, InList: inList}
+	return &Lazy{ID: x.lazyN, Spec: sp, Depth: depth, InList: inList, Birth: x.serial}
 }
 
 func (lz *Lazy) allowedKinds() []byte {
@@ -103,6 +104,7 @@ func (x *Exec) force(lz *Lazy) Iface {
 	switch k {
 	case 'm':
 		m := x.newMap(x.eng.mapType)
+		m.Serial = lz.Birth
 		m.Lazy = lz
 		lz.Map = m
 		r = Iface{T: x.eng.mapType, V: m}
@@ -116,8 +118,10 @@ func (x *Exec) force(lz *Lazy) Iface {
 			n = lo + x.pick("listsize", lz.Spec.Width-lo+1)
 		}
 		a := x.newArr(n)
+		a.Serial = lz.Birth
 		for i := 0; i < n; i++ {
 			kid := x.newLazy(lz.Spec, lz.Depth-1, true)
+			kid.Birth = lz.Birth
 			lz.Kids = append(lz.Kids, kid)
 			a.E[i] = kid
 		}
@@ -170,6 +174,7 @@ func (x *Exec) forceMapSize(m *MapObj) {
 			x.addPC(x.ts.Not(x.ts.StrEq(pk, k)))
 		}
 		kid := x.newLazy(lz.Spec, lz.Depth-1, false)
+		kid.Birth = lz.Birth
 		lz.Keys = append(lz.Keys, k)
 		lz.Kids = append(lz.Kids, kid)
 		m.Entries = append(m.Entries, &MapEntry{K: k, V: kid})
